@@ -1,1 +1,237 @@
-From NSpa Require Import Model.Vec.
+(* C02 - Binding and superposition equal their mathematical definition,
+   bilinearly.  For every commutative ring R (hence the reals), every
+   dimension, every vector.  Only statements; proofs are [exact <lemma>]. *)
+From mathcomp Require Import all_ssreflect all_algebra.
+From NSpa Require Import Model.Vec Model.Hrr Model.Vtb
+  Theory.SeqSum Theory.Conv Theory.MxBridge Theory.VtbLaws.
+Import GRing.Theory.
+Local Open Scope ring_scope.
+
+(* ---------------- HRR: circular convolution ------------------------------ *)
+Theorem C02_hrr_bind_is_circular_convolution :
+  forall (R : comRingType) p (a b : seq R) (i : 'I_p.+1),
+    size a = p.+1 ->
+    vnth (hrr_bind_core a b) i = \sum_(j < p.+1) vnth a j * vnth b (i - j)%R.
+Proof. exact: nth_hrr_bind. Qed.
+Print Assumptions C02_hrr_bind_is_circular_convolution.
+
+Theorem C02_hrr_bind_accepts_equal_lengths :
+  forall (R : comRingType) (a b : seq R),
+    size a = size b -> hrr_bind a b = Ok (hrr_bind_core a b).
+Proof. exact: hrr_bind_equal. Qed.
+Print Assumptions C02_hrr_bind_accepts_equal_lengths.
+
+Theorem C02_hrr_bind_rejects_unequal_lengths :
+  forall (R : comRingType) (a b : seq R),
+    size a != size b -> hrr_bind a b = Err ValueError.
+Proof. exact: hrr_bind_unequal. Qed.
+Print Assumptions C02_hrr_bind_rejects_unequal_lengths.
+
+Theorem C02_hrr_bind_commutative :
+  forall (R : comRingType) (a b : seq R),
+    size a = size b -> hrr_bind_core a b = hrr_bind_core b a.
+Proof. exact: hrr_bind_comm. Qed.
+Print Assumptions C02_hrr_bind_commutative.
+
+Theorem C02_hrr_bind_associative :
+  forall (R : comRingType) (a b c : seq R),
+    size a = size b -> size b = size c ->
+    hrr_bind_core (hrr_bind_core a b) c = hrr_bind_core a (hrr_bind_core b c).
+Proof. exact: hrr_bind_assoc. Qed.
+Print Assumptions C02_hrr_bind_associative.
+
+Theorem C02_hrr_bind_additive_left :
+  forall (R : comRingType) (a a' b : seq R),
+    size a = size a' ->
+    hrr_bind_core (vadd a a') b = vadd (hrr_bind_core a b) (hrr_bind_core a' b).
+Proof. exact: hrr_bind_addl. Qed.
+Print Assumptions C02_hrr_bind_additive_left.
+
+Theorem C02_hrr_bind_homogeneous_left :
+  forall (R : comRingType) (k : R) (a b : seq R),
+    hrr_bind_core (vscale k a) b = vscale k (hrr_bind_core a b).
+Proof. exact: hrr_bind_scalel. Qed.
+Print Assumptions C02_hrr_bind_homogeneous_left.
+
+Theorem C02_hrr_bind_additive_right :
+  forall (R : comRingType) (a b b' : seq R),
+    size a = size b -> size b = size b' ->
+    hrr_bind_core a (vadd b b') = vadd (hrr_bind_core a b) (hrr_bind_core a b').
+Proof. exact: hrr_bind_addr. Qed.
+Print Assumptions C02_hrr_bind_additive_right.
+
+Theorem C02_hrr_bind_homogeneous_right :
+  forall (R : comRingType) (k : R) (a b : seq R),
+    size a = size b ->
+    hrr_bind_core a (vscale k b) = vscale k (hrr_bind_core a b).
+Proof. exact: hrr_bind_scaler. Qed.
+Print Assumptions C02_hrr_bind_homogeneous_right.
+
+Theorem C02_hrr_binding_matrix_is_direct_binding :
+  forall (R : comRingType) (v x : seq R) (swap : bool),
+    size x = size v -> matvec (hrr_bmat v swap) x = hrr_bind_core x v.
+Proof. exact: hrr_bmat_bind. Qed.
+Print Assumptions C02_hrr_binding_matrix_is_direct_binding.
+
+Theorem C02_hrr_binding_matrix_swapped_is_left_binding :
+  forall (R : comRingType) (v x : seq R),
+    size x = size v -> matvec (hrr_bmat v true) x = hrr_bind_core v x.
+Proof. exact: hrr_bmat_bind_swapped. Qed.
+Print Assumptions C02_hrr_binding_matrix_swapped_is_left_binding.
+
+Theorem C02_hrr_inversion_matrix_is_direct_inversion :
+  forall (R : comRingType) (v : seq R),
+    matvec (hrr_imat R (size v)) v = hrr_invert v.
+Proof. exact: hrr_imat_invert. Qed.
+Print Assumptions C02_hrr_inversion_matrix_is_direct_inversion.
+
+(* ---------------- VTB: sqrt(s) * A * B^T --------------------------------- *)
+Theorem C02_vtb_bind_is_scaled_A_Bt :
+  forall (R : comRingType) s (a b : seq R),
+    size a = (s * s)%N -> size b = (s * s)%N ->
+    vtb_bind a b = Ok (Scaled (vtb_core s a b) s 1) /\
+    mx_of s (vtb_core s a b) = mx_of s a *m (mx_of s b)^T.
+Proof. move=> R s a b sa sb; split; [exact: vtb_bindE | exact: vtb_core_mx]. Qed.
+Print Assumptions C02_vtb_bind_is_scaled_A_Bt.
+
+(* ---------------- TVTB: sqrt(s) * A * B ---------------------------------- *)
+Theorem C02_tvtb_bind_is_scaled_A_B :
+  forall (R : comRingType) s (a b : seq R),
+    size a = (s * s)%N -> size b = (s * s)%N ->
+    tvtb_bind a b = Ok (Scaled (tvtb_core s a b) s 1) /\
+    mx_of s (tvtb_core s a b) = mx_of s a *m mx_of s b.
+Proof. move=> R s a b sa sb; split; [exact: tvtb_bindE | exact: tvtb_core_mx]. Qed.
+Print Assumptions C02_tvtb_bind_is_scaled_A_B.
+
+Theorem C02_vtb_rejects_unequal_lengths :
+  forall (R : comRingType) (a b : seq R),
+    size a != size b -> vtb_bind a b = Err ValueError.
+Proof. exact: vtb_bind_unequal. Qed.
+Print Assumptions C02_vtb_rejects_unequal_lengths.
+
+Theorem C02_tvtb_rejects_unequal_lengths :
+  forall (R : comRingType) (a b : seq R),
+    size a != size b -> tvtb_bind a b = Err ValueError.
+Proof. exact: tvtb_bind_unequal. Qed.
+Print Assumptions C02_tvtb_rejects_unequal_lengths.
+
+Theorem C02_vtb_rejects_nonsquare_dimensions :
+  forall (R : comRingType) (a b : seq R),
+    size a = size b -> (~ exists s, (s * s)%N = size b) ->
+    vtb_bind a b = Err ValueError.
+Proof. exact: vtb_bind_nonsquare. Qed.
+Print Assumptions C02_vtb_rejects_nonsquare_dimensions.
+
+Theorem C02_tvtb_rejects_nonsquare_dimensions :
+  forall (R : comRingType) (a b : seq R),
+    size a = size b -> (~ exists s, (s * s)%N = size b) ->
+    tvtb_bind a b = Err ValueError.
+Proof. exact: tvtb_bind_nonsquare. Qed.
+Print Assumptions C02_tvtb_rejects_nonsquare_dimensions.
+
+Theorem C02_square_algebras_valid_dimension_iff_positive_square :
+  forall d, reflect (exists2 s, (0 < s)%N & d = (s * s)%N) (vtb_valid d).
+Proof. exact: vtb_validP. Qed.
+Print Assumptions C02_square_algebras_valid_dimension_iff_positive_square.
+
+(* bilinearity of both matrix algebras *)
+Theorem C02_vtb_bind_additive_left :
+  forall (R : comRingType) s (a a' b : seq R),
+    size a = (s * s)%N -> size a' = (s * s)%N ->
+    vtb_core s (vadd a a') b = vadd (vtb_core s a b) (vtb_core s a' b).
+Proof. exact: vtb_core_addl. Qed.
+Print Assumptions C02_vtb_bind_additive_left.
+Theorem C02_vtb_bind_additive_right :
+  forall (R : comRingType) s (a b b' : seq R),
+    size a = (s * s)%N -> size b = size b' ->
+    vtb_core s a (vadd b b') = vadd (vtb_core s a b) (vtb_core s a b').
+Proof. exact: vtb_core_addr. Qed.
+Print Assumptions C02_vtb_bind_additive_right.
+Theorem C02_vtb_bind_homogeneous_left :
+  forall (R : comRingType) s (k : R) (a b : seq R),
+    size a = (s * s)%N -> vtb_core s (vscale k a) b = vscale k (vtb_core s a b).
+Proof. exact: vtb_core_scalel. Qed.
+Print Assumptions C02_vtb_bind_homogeneous_left.
+Theorem C02_vtb_bind_homogeneous_right :
+  forall (R : comRingType) s (k : R) (a b : seq R),
+    size a = (s * s)%N -> vtb_core s a (vscale k b) = vscale k (vtb_core s a b).
+Proof. exact: vtb_core_scaler. Qed.
+Print Assumptions C02_vtb_bind_homogeneous_right.
+Theorem C02_tvtb_bind_additive_left :
+  forall (R : comRingType) s (a a' b : seq R),
+    size a = (s * s)%N -> size a' = (s * s)%N ->
+    tvtb_core s (vadd a a') b = vadd (tvtb_core s a b) (tvtb_core s a' b).
+Proof. exact: tvtb_core_addl. Qed.
+Print Assumptions C02_tvtb_bind_additive_left.
+Theorem C02_tvtb_bind_additive_right :
+  forall (R : comRingType) s (a b b' : seq R),
+    size a = (s * s)%N -> size b = size b' ->
+    tvtb_core s a (vadd b b') = vadd (tvtb_core s a b) (tvtb_core s a b').
+Proof. exact: tvtb_core_addr. Qed.
+Print Assumptions C02_tvtb_bind_additive_right.
+Theorem C02_tvtb_bind_homogeneous_left :
+  forall (R : comRingType) s (k : R) (a b : seq R),
+    size a = (s * s)%N -> tvtb_core s (vscale k a) b = vscale k (tvtb_core s a b).
+Proof. exact: tvtb_core_scalel. Qed.
+Print Assumptions C02_tvtb_bind_homogeneous_left.
+Theorem C02_tvtb_bind_homogeneous_right :
+  forall (R : comRingType) s (k : R) (a b : seq R),
+    size a = (s * s)%N -> tvtb_core s a (vscale k b) = vscale k (tvtb_core s a b).
+Proof. exact: tvtb_core_scaler. Qed.
+Print Assumptions C02_tvtb_bind_homogeneous_right.
+
+(* binding matrices (both swap_inputs values) and inversion matrices agree
+   with the direct operations, for every vector *)
+Theorem C02_vtb_binding_matrix_is_direct_binding :
+  forall (R : comRingType) s (v x : seq R) (swap : bool),
+    size v = (s * s)%N -> size x = (s * s)%N ->
+    exists2 M, vtb_bmat v swap = Ok (Scaled M s 1) &
+               matvec M x = if swap then vtb_core s v x else vtb_core s x v.
+Proof. move=> R s v x swap; exact: vtb_bmat_spec. Qed.
+Print Assumptions C02_vtb_binding_matrix_is_direct_binding.
+
+Theorem C02_tvtb_binding_matrix_is_direct_binding :
+  forall (R : comRingType) s (v x : seq R) (swap : bool),
+    size v = (s * s)%N -> size x = (s * s)%N ->
+    exists2 M, tvtb_bmat v swap = Ok (Scaled M s 1) &
+               matvec M x = if swap then tvtb_core s v x else tvtb_core s x v.
+Proof. move=> R s v x swap; exact: tvtb_bmat_spec. Qed.
+Print Assumptions C02_tvtb_binding_matrix_is_direct_binding.
+
+Theorem C02_vtb_inversion_matrix_is_direct_inversion :
+  forall (R : comRingType) s (x : seq R) sd,
+    size x = (s * s)%N -> sd <> SLeft ->
+    exists2 w, vtb_imat R (s * s) sd = Ok w &
+      (matvec (wval w) x = vtb_transpose_vec s x /\
+       vtb_invert x sd = Ok (Warned (vtb_transpose_vec s x) (wdep w))).
+Proof. exact: vtb_imat_spec. Qed.
+Print Assumptions C02_vtb_inversion_matrix_is_direct_inversion.
+
+Theorem C02_tvtb_inversion_matrix_is_direct_inversion :
+  forall (R : comRingType) s (x : seq R) sd,
+    size x = (s * s)%N ->
+    exists2 w, tvtb_imat R (s * s) sd = Ok w &
+      (matvec (wval w) x = vtb_transpose_vec s x /\
+       tvtb_invert x sd = Ok (Warned (vtb_transpose_vec s x) false)).
+Proof. exact: tvtb_imat_spec. Qed.
+Print Assumptions C02_tvtb_inversion_matrix_is_direct_inversion.
+
+(* superposition is element-wise addition *)
+Theorem C02_superposition_is_elementwise :
+  forall (R : ringType) (a b : seq R) i,
+    size a = size b -> vnth (vadd a b) i = vnth a i + vnth b i.
+Proof. exact: nth_vadd. Qed.
+Print Assumptions C02_superposition_is_elementwise.
+
+(* non-vacuity: concrete bindings at Z *)
+From mathcomp Require Import ssrZ.
+From Coq Require Import ZArith.
+Example C02_example_hrr :
+  hrr_bind [:: 1; 2; 3]%Z [:: 4; 5; 6]%Z = Ok [:: 31; 31; 28]%Z.
+Proof. by vm_compute. Qed.
+Example C02_example_vtb :
+  vtb_bind [:: 1; 2; 3; 4]%Z [:: 5; 6; 7; 8]%Z = Ok (Scaled [:: 17; 23; 39; 53]%Z 2 1).
+Proof. by vm_compute. Qed.
+Example C02_example_tvtb :
+  tvtb_bind [:: 1; 2; 3; 4]%Z [:: 5; 6; 7; 8]%Z = Ok (Scaled [:: 19; 22; 43; 50]%Z 2 1).
+Proof. by vm_compute. Qed.
